@@ -528,7 +528,9 @@ def ev(model, t):
         fr = v.as_fraction()
         return float(fr)
     if z3.is_string_value(v):
-        return v.as_string()
+        import re as _re
+
+        return _re.sub(r"\\u\{([0-9a-fA-F]+)\}", lambda m: chr(int(m.group(1), 16)), v.as_string())
     if z3.is_algebraic_value(v):
         return float(v.approx(20).as_fraction())
     raise ModelGap(f"cannot evaluate {v}")
